@@ -78,6 +78,19 @@ Theorem C18_never_panics : forall objs,
   (exists gs, propagate_cfg_fixed objs = Ok gs /\ List.length gs = List.length (preorder objs)).
 Proof. exact never_panics. Qed.
 
+(* No gate tests a predicate nobody wrote: every atom of the predicate under which any emitted item is
+   compiled in (it_eff: own attribute AND the attribute of the item it is nested in) is the own cfg of some
+   object of the tree (at any depth), of some field of a register / command, or of some variant of an inline
+   enum of such a field (written_atoms).  Corrected pass, every tree.  The same holds for the attribute
+   alone (C18_attr_atoms_are_written). *)
+Theorem C18_gate_atoms_are_written : forall d its, items_fixed d = Ok its ->
+  forall it a, In it its -> In a (atoms_x (it_eff it)) -> In a (written_atoms d).
+Proof. exact gate_atoms_are_written. Qed.
+
+Theorem C18_attr_atoms_are_written : forall d its, items_fixed d = Ok its ->
+  forall it a, In it its -> In a (atoms_x (it_attr it)) -> In a (written_atoms d).
+Proof. exact attr_atoms_are_written. Qed.
+
 (* ---- non-vacuity ---- *)
 
 (* C18_partial's hypothesis holds for a non-trivial tree (two nested cfg'd blocks with a repeated atom, a
@@ -122,6 +135,19 @@ Example C18_empty_block_exit :
   propagate_cfg_fixed (d_objects d6_witness_empty) = Ok [Some (Atom "a"); Some (All (Atom "b") (Atom "a")); None].
 Proof. vm_compute. repeat split. Qed.
 
+(* C18_gate_atoms_are_written is not vacuous: on ex_single (two nested cfg'd blocks, cfg'd register / field /
+   variant) the corrected pass succeeds, the variant of the inline enum is compiled in under e, d, c, a, each
+   of them written, and conversely every written atom is tested by some gate (the bound is tight there). *)
+Example C18_gate_atoms_nonvacuous :
+  written_atoms ex_single = ["a"; "a"; "c"; "d"; "e"; "f"] /\
+  match items_fixed ex_single with
+  | Ok its =>
+    In ("variant:E.V", ["e"; "d"; "c"; "a"]) (map (fun it => (it_key it, atoms_x (it_eff it))) its) /\
+    canon (flat_map (fun it => atoms_x (it_eff it)) its) = canon (written_atoms ex_single)
+  | Fail _ => False
+  end.
+Proof. vm_compute. repeat split; tauto. Qed.
+
 Example C18_combine_examples :
   cfg_combine (Some (Atom "x")) (Some (Atom "y")) = Some (All (Atom "x") (Atom "y")) /\
   cfg_combine (Some (Atom "x")) (Some (Atom "x")) = Some (Atom "x") /\
@@ -136,3 +162,5 @@ Print Assumptions C18_gates_are_conjunctions_fixed.
 Print Assumptions C18_combine_atoms.
 Print Assumptions C18_no_cfg_unconditional.
 Print Assumptions C18_never_panics.
+Print Assumptions C18_gate_atoms_are_written.
+Print Assumptions C18_attr_atoms_are_written.
